@@ -236,10 +236,13 @@ class Check:
                 rep = {"failed": False, "description": f"replayer crashed: {type(e).__name__}: {e}"}
         if rep is None:
             rep = {"failed": False, "description": "no replayer for this obligation"}
-        if getattr(o, "device", False) and not rep.get("failed"):
+        if (getattr(o, "device", False) or str(o.kind).startswith("inv")) and not rep.get("failed"):
+            # a loop invariant (or another clause marked device) is a means of proof, not the property: when it no longer
+            # holds for the current code and the native replay of the property finds no failing input, the proof is
+            # lost -- UNDECIDED -- but nothing says the property is violated (e.g. a loop rewritten in another shape)
             o.status = "undecided"
-            self.undecided.append(f"{o.name} :: proof-device clause (stronger than the property) refuted by {o.backend}; "
-                                  f"native replay of the property: {rep.get('description', '')[:160]}")
+            self.undecided.append(f"{o.name} :: proof-device clause (invariant / stronger than the property) refuted by "
+                                  f"{o.backend}; native replay of the property: {rep.get('description', '')[:160]}")
             return
         self.failures.append(Failure(
             source=o.name, key=rep.get("key") or o.key,
